@@ -151,7 +151,11 @@ var builtinNames = []string{
 }
 
 // Run parses src, evaluates it with inputs predefined as global variables and
-// returns the outcome. maxSteps bounds the number of evaluation steps.
+// returns the outcome. maxSteps bounds the number of evaluation steps
+// (statements + expressions); exceeding it gives Kind Unsupported with Msg
+// "step limit". Input arrays and maps are used as they are (not copied), so
+// the program can modify them, as it can modify host objects given to the
+// real Script.
 func Run(src string, inputs map[string]Value, maxSteps int) (res Result) {
 	defer func() {
 		// Single top-level safety net: an internal abort (a bug in refsem or
@@ -221,6 +225,9 @@ func Run(src string, inputs map[string]Value, maxSteps int) (res Result) {
 		} else {
 			globals[name] = c.v
 		}
+	}
+	if ev.internal != "" {
+		return Result{Kind: OtherRuntimeError, Globals: globals, Msg: "refsem: internal error: " + ev.internal}
 	}
 	if rerr != nil {
 		return Result{Kind: rerr.kind, Globals: globals, Msg: rerr.msg}
